@@ -177,7 +177,7 @@ fn e1_common(rep: &mut Report) {
 }
 
 fn finish_e1(cfg: &Config, mut rep: Report, rule: &str) -> i32 {
-    let mut cfg2 = Config { setup: cfg.setup.clone(), alphabet: cfg.alphabet.clone(), probes: cfg.probes.clone(), ..*cfg };
+    let mut cfg2 = Config { seed: cfg.seed.clone(), setup: cfg.setup.clone(), alphabet: cfg.alphabet.clone(), probes: cfg.probes.clone(), stream_names: cfg.stream_names.clone(), ..*cfg };
     if let Ok(d) = std::env::var("MSIMC_DEPTH") {
         cfg2.max_depth = d.parse().expect("MSIMC_DEPTH");
     }
@@ -198,10 +198,12 @@ pub fn run_c03(tier: Tier) -> i32 {
     e1_common(&mut rep);
     let cfg = Config {
         property: "C03",
+        seed: None,
         ptype: 0,
         setup: vec![],
         alphabet: a03(tier),
         probes: vec![],
+        stream_names: vec![],
         max_depth: if tier.thorough() { 10 } else { 8 },
         wall_cap: Duration::from_secs(if tier.thorough() { 900 } else { 60 }),
         monitors: Monitors { model: true, selects: true, ..Monitors::default() },
@@ -216,10 +218,12 @@ pub fn run_c05(tier: Tier) -> i32 {
     e1_common(&mut rep);
     let cfg = Config {
         property: "C05",
+        seed: None,
         ptype: 0,
         setup: vec![],
         alphabet: a03(tier),
         probes: vec![],
+        stream_names: vec![],
         max_depth: if tier.thorough() { 10 } else { 8 },
         wall_cap: Duration::from_secs(if tier.thorough() { 900 } else { 40 }),
         monitors: Monitors { invariants: true, ..Monitors::default() },
@@ -235,10 +239,12 @@ pub fn run_c04(tier: Tier) -> i32 {
     let menu = invalid_menu();
     let cfg = Config {
         property: "C04",
+        seed: None,
         ptype: 0,
         setup: vec![],
         alphabet: a03(tier),
         probes: menu,
+        stream_names: vec![],
         max_depth: if tier.thorough() { 7 } else { 5 },
         wall_cap: Duration::from_secs(if tier.thorough() { 900 } else { 60 }),
         monitors: Monitors { unchanged_on_err: true, ..Monitors::default() },
@@ -290,10 +296,12 @@ pub fn run_c01(tier: Tier) -> i32 {
     }
     let cfg = Config {
         property: "C01",
+        seed: None,
         ptype: 0,
         setup: vec![],
         alphabet,
         probes: vec![],
+        stream_names: vec![],
         max_depth: if tier.thorough() { 8 } else { 6 },
         wall_cap: Duration::from_secs(if tier.thorough() { 900 } else { 60 }),
         monitors: Monitors { roundtrip: true, ..Monitors::default() },
@@ -318,10 +326,12 @@ pub fn run_c08(tier: Tier) -> i32 {
     ]);
     let cfg = Config {
         property: "C08",
+        seed: None,
         ptype: 0,
         setup: vec![],
         alphabet,
         probes: vec![],
+        stream_names: vec![],
         max_depth: if tier.thorough() { 9 } else { 6 },
         wall_cap: Duration::from_secs(if tier.thorough() { 900 } else { 60 }),
         monitors: Monitors { wellformed: true, ..Monitors::default() },
@@ -381,12 +391,14 @@ pub fn summary_alphabet(tier: Tier) -> Vec<Op> {
 pub fn run_c10_e1(tier: Tier, rep: &mut Report) -> crate::e1::Stats {
     let cfg = Config {
         property: "C10",
+        seed: None,
         ptype: 0,
         setup: vec![],
         alphabet: summary_alphabet(tier),
         probes: vec![],
-        max_depth: if tier.thorough() { 4 } else { 3 },
-        wall_cap: Duration::from_secs(if tier.thorough() { 600 } else { 30 }),
+        stream_names: vec![],
+        max_depth: std::env::var("MSIMC_DEPTH").ok().and_then(|d| d.parse().ok()).unwrap_or(if tier.thorough() { 7 } else { 5 }),
+        wall_cap: Duration::from_secs(if tier.thorough() { 600 } else { 45 }),
         monitors: Monitors { model: true, roundtrip: true, summary_stream: true, ..Monitors::default() },
         merge_audits: 0,
         nodedup_depth: 0,
@@ -394,4 +406,160 @@ pub fn run_c10_e1(tier: Tier, rep: &mut Report) -> crate::e1::Stats {
     let st = explore(&cfg, rep);
     fill_report(&cfg, &st, rep);
     st
+}
+
+// ------------------------------------------------------------------------- //
+// C11 — binary streams
+// ------------------------------------------------------------------------- //
+
+pub fn stream_names(tier: Tier) -> Vec<String> {
+    let mut v: Vec<String> = vec![
+        "a".into(),
+        "A".into(),
+        "00".into(),
+        "\u{3800}".into(),
+        "x".into(),
+        "/x".into(),
+        "\u{e9}".into(),
+        "\u{c9}".into(),
+        "T".into(),
+        "\u{4840}T".into(),
+        ":".into(),
+        "\u{5}SummaryInformation".into(),
+    ];
+    if tier.thorough() {
+        v.extend(
+            [
+                "\u{4801}",
+                "x/",
+                "y/../x",
+                "\u{5}DigitalSignature",
+                "!",
+                "\\",
+                ".",
+                "",
+                "_StringPool",
+                "\u{4840}_StringPool",
+                "a b",
+                "\u{1F600}",
+            ]
+            .iter()
+            .map(|s| s.to_string()),
+        );
+        // 31 / 32 encoded units from packable pairs (62 / 64 chars), from
+        // unpackable characters, from astral characters (2 units each)
+        v.push("ab".repeat(31));
+        v.push("ab".repeat(32));
+        v.push("a".repeat(61));
+        v.push("-".repeat(31));
+        v.push("-".repeat(32));
+        v.push("\u{1F600}".repeat(15));
+        v.push("\u{1F600}".repeat(16));
+    }
+    v
+}
+
+pub fn run_c11(tier: Tier) -> i32 {
+    let mut rep = Report::new("C11", tier, "model_checking");
+    e1_common(&mut rep);
+    rep.assume("stream-name reference (ops.rs stream_name_class): empty and over-long names must be refused; names with container-reserved characters, the table marker in front, characters inside the packing ranges or control characters may be refused or accepted, and when accepted must behave like any other name; names that differ by case only may share one entry");
+    let names = stream_names(tier);
+    let contents: Vec<(usize, u8)> = if tier.thorough() { vec![(3, 1), (0, 0), (4097, 5)] } else { vec![(3, 1), (4097, 5)] };
+    let mut alphabet: Vec<Op> = Vec::new();
+    for (len, seed) in &contents {
+        for (i, n) in names.iter().enumerate() {
+            alphabet.push(Op::WriteStream { name: n.clone(), len: *len, seed: seed.wrapping_add(i as u8) });
+        }
+    }
+    for n in &names {
+        alphabet.push(Op::RemoveStream { name: n.clone() });
+    }
+    alphabet.push(Op::Reopen);
+    alphabet.push(Op::CreateTable { name: "T".into(), cols: vec![ColSpec::new("K", Ty::I16).key(), ColSpec::new("S", Ty::Str(8)).nullable()] });
+    alphabet.push(ins("T", vec![vec![i(1), s("x")]]));
+    alphabet.push(Op::DropTable { name: "T".into() });
+    alphabet.push(Op::RemoveSignature);
+    if tier.thorough() {
+        alphabet.push(Op::WriteStream { name: "x".into(), len: 9000, seed: 3 });
+        alphabet.push(Op::WriteStream { name: "a".into(), len: 4096, seed: 4 });
+        alphabet.push(Op::WriteStream { name: "a".into(), len: 4095, seed: 6 });
+        alphabet.push(Op::WriteStream { name: "a".into(), len: 1, seed: 8 });
+        alphabet.push(Op::DropReopen);
+    }
+    let cfg = Config {
+        property: "C11",
+        seed: None,
+        ptype: 0,
+        setup: vec![],
+        alphabet,
+        probes: vec![],
+        stream_names: names,
+        max_depth: 4,
+        wall_cap: Duration::from_secs(if tier.thorough() { 900 } else { 60 }),
+        monitors: Monitors { model: true, roundtrip: true, stream_listing: true, stream_class_compare: true, ..Monitors::default() },
+        merge_audits: 0,
+        nodedup_depth: 0,
+    };
+    let mut cfg2 = cfg;
+    if let Ok(d) = std::env::var("MSIMC_DEPTH") {
+        cfg2.max_depth = d.parse().expect("MSIMC_DEPTH");
+    }
+    let st = explore(&cfg2, &mut rep);
+    fill_report(&cfg2, &st, &mut rep);
+    // second exploration: a package that carries both signature streams
+    let seed = signed_seed();
+    let cfg3 = Config {
+        property: "C11",
+        seed: Some(seed),
+        ptype: 0,
+        setup: vec![],
+        alphabet: vec![
+            Op::RemoveSignature,
+            Op::WriteStream { name: "x".into(), len: 3, seed: 1 },
+            Op::RemoveStream { name: "x".into() },
+            Op::WriteStream { name: "\u{5}DigitalSignature".into(), len: 3, seed: 2 },
+            Op::RemoveStream { name: "\u{5}DigitalSignature".into() },
+            Op::RemoveStream { name: "\u{5}MsiDigitalSignatureEx".into() },
+            Op::Reopen,
+            ins("T", vec![vec![i(2), s("y")]]),
+            Op::Summary(SumOp::SetAuthor("me".into())),
+        ],
+        probes: vec![],
+        stream_names: vec!["x".into(), "\u{5}DigitalSignature".into(), "\u{5}MsiDigitalSignatureEx".into(), "\u{5}SummaryInformation".into(), "keep".into()],
+        max_depth: if tier.thorough() { 5 } else { 4 },
+        wall_cap: Duration::from_secs(120),
+        monitors: Monitors { model: true, roundtrip: true, stream_class_compare: true, ..Monitors::default() },
+        merge_audits: 0,
+        nodedup_depth: 0,
+    };
+    let st3 = explore(&cfg3, &mut rep);
+    rep.set("signed_seed_states", st3.states);
+    rep.set("signed_seed_transitions", st3.transitions);
+    rep.set("signed_seed_depth", st3.max_depth_completed);
+    rep.add("states", st3.states as i64);
+    rep.add("transitions", (st3.transitions + st3.probes) as i64);
+    rep.add("traces_validated_against_impl", (st3.transitions + st3.probes) as i64);
+    rep.set("rule", "all sequences of write/overwrite/remove over the colliding name set x contents on both sides of the small-stream cutoff, interleaved with table operations and reopen, up to the completed depth; after every transition listing + contents are compared with the model (names as given; names differing by case only may share an entry); every state: has_stream/read_stream of every name in the set, raw container entry list vs listing, save + reopen; second exploration from a seed carrying both signature streams (remove_digital_signature must change nothing else; signature streams unreachable through the stream interface)");
+    rep.finish()
+}
+
+/// A valid package (table T with a row, user stream "keep") to which both
+/// signature streams are added directly in the container.
+pub fn signed_seed() -> Vec<u8> {
+    use std::io::Write;
+    let mut h = crate::ops::Harness::create(0).expect("create");
+    let ops = [
+        Op::CreateTable { name: "T".into(), cols: vec![ColSpec::new("K", Ty::I16).key(), ColSpec::new("S", Ty::Str(8)).nullable()] },
+        ins("T", vec![vec![i(1), s("x")]]),
+        Op::WriteStream { name: "keep".into(), len: 10, seed: 9 },
+    ];
+    for op in &ops {
+        assert!(h.apply(op).is_ok());
+    }
+    let bytes = h.close_into_inner().expect("close");
+    let mut comp = cfb::CompoundFile::open(std::io::Cursor::new(bytes)).expect("cfb open");
+    comp.create_stream("\u{5}DigitalSignature").expect("sig").write_all(b"signature-bytes").expect("w");
+    comp.create_stream("\u{5}MsiDigitalSignatureEx").expect("sigex").write_all(b"signature-ex").expect("w");
+    comp.flush().expect("flush");
+    comp.into_inner().into_inner()
 }
